@@ -35,6 +35,8 @@ Definition pinv (s : pst) : Prop := linv s [].
 
 Lemma table_passes_id : gen.T18.RESTORE_PASSES_ID = true.
 Proof. reflexivity. Qed.
+Lemma table_checks_free : gen.T18.RESTORE_CHECKS_FREE = true.
+Proof. reflexivity. Qed.
 
 Lemma shas_In n l : shas n l = true <-> In n (snames l).
 Proof.
@@ -178,133 +180,181 @@ Proof.
     + intros k p c f Hin2. eapply Q17. right. exact Hin2.
 Qed.
 
-(* ---- one iteration of the loop of _restoreEvents ---- *)
-Lemma restore_one_inv s K ev R : linv s ((K, ev) :: R) -> linv (restore_one s (K, ev)) R.
+(* ---- frames: what an attempt leaves alone ---- *)
+Lemma s_add_frame t nm cmd rem per s :
+  let s1 := fst (s_add t nm cmd rem per s) in
+  p_gen s1 = p_gen s /\ p_done s1 = p_done s /\ p_loaded s1 = p_loaded s /\ p_pickle s1 = p_pickle s /\ p_now s1 = p_now s.
 Proof.
-  intros H. pose proof H as [Q1 Q2 Q3 Q4 Q5 Q6 Q7 Q8 Q9 Q10 Q11 Q12 Q13 Q14 Q15 Q16 Q17].
+  unfold s_add. destruct nm as [n|]; simpl.
+  - destruct (shas n (p_sched s)); simpl; auto.
+  - destruct (shas (Auto (p_counter s)) (p_sched s)); simpl; auto.
+Qed.
+
+Lemma attempt_frame t nm K ev rem per s :
+  let s1 := attempt t nm K ev rem per s in
+  p_gen s1 = p_gen s /\ p_done s1 = p_done s /\ p_loaded s1 = p_loaded s /\ p_pickle s1 = p_pickle s.
+Proof.
+  unfold attempt. destruct (s_add_frame t nm (pcmd ev) rem per s) as (A & B & C & D & _).
+  destruct (s_add t nm (pcmd ev) rem per s) as [s1 [id|e]]; simpl in *; auto.
+Qed.
+
+Lemma dset_keys_mono k v d x : In x (keys d) -> In x (keys (dset k v d)).
+Proof.
+  induction d as [|[k' v'] d IH]; simpl; [intros []|].
+  destruct (name_eqb k' k) eqn:E; simpl; intros [H|H]; auto. apply name_eqb_eq in E. subst. auto.
+Qed.
+Lemma dset_keys_new k v d : In k (keys (dset k v d)).
+Proof.
+  induction d as [|[k' v'] d IH]; simpl; auto. destruct (name_eqb k' k); simpl; auto.
+Qed.
+Lemma dhas_In k d : dhas k d = true <-> In k (keys d).
+Proof.
+  induction d as [|[k' v'] d IH]; simpl; [split; [discriminate|tauto]|].
+  rewrite orb_true_iff, IH, name_eqb_eq. tauto.
+Qed.
+Lemma ddel_keys_other n d x : In x (keys d) -> x <> n -> In x (keys (ddel n d)).
+Proof.
+  intros H Hn. apply in_map_iff in H. destruct H as [kv [E Hk]]. apply in_map_iff. exists kv. split; auto.
+  unfold ddel. apply filter_In. split; auto. rewrite E. apply negb_true_iff. apply name_eqb_neq. exact Hn.
+Qed.
+Lemma ddel_in k d kv : In kv (ddel k d) -> In kv d /\ fst kv <> k.
+Proof.
+  unfold ddel. intros H. apply filter_In in H. destruct H as [A B]. split; auto.
+  apply negb_true_iff in B. apply name_eqb_neq in B. exact B.
+Qed.
+
+(* ---- the second invariant: generations, schedule within the dict, executed one-shots are gone for good ---- *)
+Definition dcmds (d : list (name * pev)) := map kcmd d.
+Record MLOOP (s : pst) (R : list (name * pev)) : Prop := {
+  m_linv : linv s R;
+  m_gen : forall e, In e (p_sched s) -> s_gen e = p_gen s;              (* every scheduled function is a closure of the live instance *)
+  m_sd : forall e, In e (p_sched s) -> In (s_name e) (keys (p_dict s)); (* and is listed *)
+  m_done : forall c, In c (p_done s) -> ~ In c (scmds (p_sched s)) /\ ~ In c (dcmds (p_dict s)) /\ ~ In c (dcmds R);
+  m_nd : NoDup (p_done s);                                              (* <- no one-shot request was executed twice *)
+  m_lt : forall c, In c (p_done s) -> (c < p_ncmd s)%N;
+  m_rs : forall e, In e (p_sched s) -> ~ In (s_cmd e) (dcmds R) }.     (* what is scheduled is not waiting to be restored *)
+Definition minv (s : pst) : Prop :=
+  MLOOP s [] /\ (p_loaded s = false -> p_sched s = [] /\ p_pickle s = p_dict s).
+
+Lemma mloop_attempt t nm K ev rem per s R :
+  MLOOP s ((K, ev) :: R) ->
+  (nm = Some K \/ (nm = None /\ ~ In (pcmd ev) (scmds (p_sched s)))) ->
+  (forall tt c r, ev = PSingle tt c r -> nm = None \/ exists i, K = Auto i) ->
+  (forall i, K = Auto i -> nm = Some K -> (i < p_counter s)%N) ->
+  (forall p c f, ev = PRepeat p c f -> nm = Some K) ->
+  MLOOP (attempt t nm K ev rem per s) R.
+Proof.
+  intros [L G SD Dn ND LT RS] H1 H2 H3 H4.
+  pose proof (linv_attempt t nm K ev rem per s R L H1 H2 H3 H4) as L'.
+  destruct (attempt_frame t nm K ev rem per s) as (Fg & Fd & _ & _).
+  assert (HinR : In (K, ev) ((K, ev) :: R)) by (left; auto).
+  assert (Cnot : ~ In (pcmd ev) (p_done s)).
+  { intro X. destruct (Dn _ X) as (_ & _ & Y). apply Y. left. reflexivity. }
+  assert (NotR : ~ In (pcmd ev) (dcmds R)).
+  { intro X. apply in_map_iff in X. destruct X as [b [E Hb]].
+    pose proof (q_kR _ _ _ _ _ L) as K6. pose proof (q_uR _ _ _ _ _ L) as K7. inversion K6; subst. apply H5.
+    change K with (fst (K, ev)). rewrite <- (K7 b (K, ev) (or_intror Hb) HinR E). apply in_map. exact Hb. }
+  assert (RS' : forall e, In e (p_sched s) -> ~ In (s_cmd e) (dcmds R)).
+  { intros e He X. apply (RS e He). right. exact X. }
+  unfold attempt in *. destruct (s_add_cases t nm (pcmd ev) rem per s) as (Ed & En & Ec & Hc).
+  destruct (s_add t nm (pcmd ev) rem per s) as [s1 [id|ex]]; simpl in *.
+  - destruct Hc as [(_ & [e X] & _)|(n & Eok & ES & Hfree & Hn)]; [discriminate|]. inversion Eok; subst n. clear Eok.
+    constructor; simpl; auto.
+    + rewrite ES, Fg. intros e [<-|He]; simpl; auto.
+    + rewrite ES, Ed. intros e [<-|He]; simpl; [apply dset_keys_new|apply dset_keys_mono; auto].
+    + rewrite ES, Ed, Fd. intros c Hc. destruct (Dn c Hc) as (A & B & C). split; [|split].
+      * intros [X|X]; [simpl in X; subst c; apply Cnot; exact Hc|apply A; exact X].
+      * intro X. apply in_map_iff in X. destruct X as [kv [E Hk]]. destruct (dset_in _ _ _ _ Hk) as [->|Hk'].
+        -- unfold kcmd in E. simpl in E. subst c. apply Cnot. exact Hc.
+        -- apply B. rewrite <- E. apply in_map. exact Hk'.
+      * intro X. apply C. right. exact X.
+    + rewrite Fd. exact ND.
+    + rewrite Fd, En. exact LT.
+    + rewrite ES. intros e [<-|He]; simpl; auto.
+  - destruct Hc as [(ES & _ & Hin)|(n & Eok & _)]; [|discriminate].
+    constructor; simpl; auto.
+    + rewrite ES, Fg. exact G.
+    + rewrite ES, Ed. intros e He. apply dset_keys_mono. auto.
+    + rewrite ES, Ed, Fd. intros c Hc. destruct (Dn c Hc) as (A & B & C). split; [exact A|split].
+      * intro X. apply in_map_iff in X. destruct X as [kv [E Hk]]. destruct (dset_in _ _ _ _ Hk) as [->|Hk'].
+        -- unfold kcmd in E. simpl in E. subst c. apply Cnot. exact Hc.
+        -- apply B. rewrite <- E. apply in_map. exact Hk'.
+      * intro X. apply C. right. exact X.
+    + rewrite Fd. exact ND.
+    + rewrite Fd, En. exact LT.
+    + rewrite ES. exact RS'.
+Qed.
+
+(* ---- one iteration of the loop of _restoreEvents ---- *)
+Lemma restore_one_m s K ev R : MLOOP s ((K, ev) :: R) -> MLOOP (restore_one s (K, ev)) R.
+Proof.
+  intros M. pose proof (m_linv _ _ M) as H. pose proof H as [Q1 Q2 Q3 Q4 Q5 Q6 Q7 Q8 Q9 Q10 Q11 Q12 Q13 Q14 Q15 Q16 Q17].
   assert (HinR : In (K, ev) ((K, ev) :: R)) by (left; auto).
   destruct ev as [t cmd rem|period cmd first]; unfold restore_one; rewrite ?table_passes_id.
-  - set (n := match key_int K with Some i => if (i <? p_counter s)%N then Some (Auto i) else None | None => None end).
-    assert (E : (match p_add t cmd rem n s with (s1, Ok _) => s1 | (s1, Raise _) => set_dict (dset K (PSingle t cmd rem) (p_dict s1)) s1 end)
-                = attempt t n K (PSingle t cmd rem) rem None s).
+  - destruct (Q8 K t cmd rem HinR) as [i Ki]. subst K. simpl key_int. cbv beta iota.
+    set (cond := ((i <? p_counter s)%N && (negb gen.T18.RESTORE_CHECKS_FREE || negb (shas (Auto i) (p_sched s))))%bool).
+    set (n := if cond then Some (Auto i) else None).
+    assert (E : (match p_add t cmd rem n s with (s1, Ok _) => s1 | (s1, Raise _) => set_dict (dset (Auto i) (PSingle t cmd rem) (p_dict s1)) s1 end)
+                = attempt t n (Auto i) (PSingle t cmd rem) rem None s).
     { unfold p_add, attempt. simpl pcmd. destruct (s_add t n cmd rem None s) as [s1 [id|e]]; reflexivity. }
-    rewrite E. destruct (Q8 K t cmd rem HinR) as [i Ki]. subst K. simpl in n.
-    apply linv_attempt; auto.
-    + unfold n. destruct (i <? p_counter s)%N eqn:L; [left; reflexivity|right]. split; auto.
+    rewrite E. apply mloop_attempt; auto.
+    + unfold n. destruct cond eqn:L; [left; reflexivity|right]. split; auto.
       intro X. apply in_map_iff in X. destruct X as [e [Ee He]].
-      pose proof (Q11 e (Auto i, PSingle t cmd rem) He HinR (eq_sym Ee)) as Hk. simpl in Hk.
-      specialize (Q12 e i He (eq_sym Hk)). lia.
+      apply (m_rs _ _ M e He). left. unfold kcmd. simpl. auto.
     + intros tt c r _. right. eauto.
-    + intros j Ej Hn. inversion Ej; subst j. unfold n in Hn. destruct (i <? p_counter s)%N eqn:L; [lia|discriminate].
+    + intros j Ej Hn. inversion Ej; subst j. unfold n in Hn. destruct cond eqn:L; [|discriminate].
+      unfold cond in L. apply andb_true_iff in L. destruct L as [L _]. lia.
     + intros p c f X. discriminate.
   - assert (E : (match p_repeat K period cmd first (next_run_in first (p_now s) period) s with
                  | (s1, Ok _) => s1 | (s1, Raise _) => set_dict (dset K (PRepeat period cmd first) (p_dict s1)) s1 end)
                 = attempt (p_now s + next_run_in first (p_now s) period) (Some K) K (PRepeat period cmd first) false (Some period) s).
     { unfold p_repeat, attempt, s_add. simpl pcmd. destruct (shas K (p_sched s)); reflexivity. }
     rewrite E. destruct (Q17 K period cmd first HinR) as [j Kj]. subst K.
-    apply linv_attempt; auto.
+    apply mloop_attempt; auto.
     + intros tt c r X. discriminate.
     + intros i X. discriminate.
 Qed.
 
-Lemma restore_all R : forall s, linv s R -> pinv (fold_left restore_one R s).
+Lemma restore_all_m R : forall s, MLOOP s R -> MLOOP (fold_left restore_one R s) [].
 Proof.
-  induction R as [|[K ev] R IH]; intros s H; simpl; auto. apply IH. apply restore_one_inv. exact H.
+  induction R as [|[K ev] R IH]; intros s H; simpl; auto. apply IH. apply restore_one_m. exact H.
 Qed.
 
-(* a new instance: empty dict, the old dict's content to process -- on the same schedule (reload) or an empty one (restart) *)
-Lemma load_inv s : pinv s -> pinv (p_load (p_die s)).
+Lemma fold_restore_frame R : forall s,
+  p_loaded (fold_left restore_one R s) = p_loaded s /\ p_pickle (fold_left restore_one R s) = p_pickle s.
 Proof.
-  intros [Q1 Q2 Q3 Q4 Q5 _ _ _ _ Q10 _ Q12 Q13 Q14 _ Q16 _]. unfold p_load, p_die. simpl. apply restore_all.
-  unfold linv. simpl. constructor; auto; try constructor;
-    unfold uniq, typed, typedr, link; intros;
-    repeat match goal with H : In _ [] |- _ => destruct H end.
+  induction R as [|[K ev] R IH]; intros s; cbn [fold_left]; auto.
+  destruct (IH (restore_one s (K, ev))) as [A B]. rewrite A, B. clear IH A B.
+  destruct ev as [t cmd rem|period cmd first]; unfold restore_one.
+  - match goal with |- context [p_add ?a ?b ?c ?n s] => set (nn := n) end.
+    unfold p_add. destruct (s_add_frame t nn cmd rem None s) as (_ & _ & C & D & _).
+    destruct (s_add t nn cmd rem None s) as [s1 [id|e]]; simpl in *; auto.
+  - unfold p_repeat.
+    destruct (s_add_frame (p_now s + next_run_in first (p_now s) period) (Some K) cmd false (Some period) s) as (_ & _ & C & D & _).
+    destruct (s_add (p_now s + next_run_in first (p_now s) period) (Some K) cmd false (Some period) s) as [s1 [id|e]]; simpl in *; auto.
 Qed.
 
-Lemma restart_inv s : pinv s ->
-  pinv (p_load (PS [] 0%N (p_now (p_die s)) (p_gen (p_die s)) (p_dict (p_die s)) (p_pickle (p_die s)) (p_ncmd (p_die s)) (p_log (p_die s)))).
+(* a new instance reads the pickle: on an emptied schedule (after die(), or in a new process) *)
+Lemma load_m s c0 : minv s -> p_loaded s = false ->
+  minv (p_load (PS (p_sched s) c0 (p_now s) (p_gen s) (p_dict s) (p_pickle s) (p_ncmd s) (p_log s) false (p_done s) (p_ign s))).
 Proof.
-  intros [Q1 Q2 Q3 Q4 Q5 _ _ _ _ Q10 _ Q12 Q13 Q14 _ Q16 _]. unfold p_load, p_die. simpl. apply restore_all.
-  unfold linv. simpl. constructor; auto; try constructor;
-    unfold uniq, typed, typedr, link; intros;
-    repeat match goal with H : In _ [] |- _ => destruct H end.
+  intros [M U] Hl. destruct (U Hl) as [Es Ep]. destruct M as [L G SD Dn ND LT RS].
+  destruct L as [Q1 Q2 Q3 Q4 Q5 _ _ _ _ Q10 _ Q12 Q13 Q14 _ Q16 _].
+  unfold p_load. simpl. split.
+  - apply restore_all_m. rewrite Es, Ep. constructor; simpl.
+    + unfold linv. simpl. constructor; auto; try constructor;
+        unfold uniq, typed, typedr, link; intros; repeat match goal with H : In _ [] |- _ => destruct H end.
+    + intros e [].
+    + intros e [].
+    + intros c Hc. destruct (Dn c Hc) as (A & B & _). split; [intros []|split; [intros []|exact B]].
+    + exact ND.
+    + exact LT.
+    + intros e [].
+  - destruct (fold_restore_frame (p_pickle s)
+      (PS (p_sched s) c0 (p_now s) (p_gen s + 1)%N [] (p_pickle s) (p_ncmd s) (p_log s) true (p_done s) (p_ign s))) as [A _].
+    rewrite A. simpl. discriminate.
 Qed.
 
-(* ---- a brand-new request: a fresh command, to be scheduled under name nm ---- *)
-Lemma fresh_item s K ev :
-  pinv s -> pcmd ev = p_ncmd s ->
-  (forall t c r, ev = PSingle t c r -> exists i, K = Auto i) -> (forall p c f, ev = PRepeat p c f -> exists j, K = Named j) ->
-  linv (snd (fresh_cmd s)) [(K, ev)].
-Proof.
-  intros [Q1 Q2 Q3 Q4 Q5 _ _ _ _ Q10 _ Q12 Q13 Q14 _ Q16 _] Hc T1 T2. unfold linv, fresh_cmd. simpl.
-  constructor; auto.
-  - constructor; [intros []|constructor].
-  - intros a b [<-|[]] [<-|[]] _. reflexivity.
-  - intros k t c r [X|[]]. inversion X; subst. eauto.
-  - intros a b Ha [<-|[]]. unfold kcmd at 2. simpl. rewrite Hc. specialize (Q14 a Ha). lia.
-  - intros e kv He [<-|[]] E. unfold kcmd in E. simpl in E. rewrite Hc in E. specialize (Q13 e He). lia.
-  - intros e He. specialize (Q13 e He). lia.
-  - intros kv Hk. specialize (Q14 kv Hk). lia.
-  - intros kv [<-|[]]. unfold kcmd. simpl. rewrite Hc. lia.
-  - intros k p c f [X|[]]. inversion X; subst. eauto.
-Qed.
-
-(* with name=None addEvent never refuses *)
-Lemma s_add_auto_ok t cmd rem per s : (forall e i, In e (p_sched s) -> s_name e = Auto i -> (i < p_counter s)%N) ->
-  exists s1 id, s_add t None cmd rem per s = (s1, Ok id).
-Proof.
-  intros H. unfold s_add. simpl. destruct (shas (Auto (p_counter s)) (p_sched s)) eqn:E; eauto.
-  apply shas_In in E. apply in_map_iff in E. destruct E as [e [En He]]. specialize (H e _ He En). lia.
-Qed.
-
-Lemma add_inv secs rem s : pinv s ->
-  pinv (let '(c, s1) := fresh_cmd s in fst (p_add (p_now s + secs) c rem None s1)).
-Proof.
-  intros H. simpl.
-  set (s1 := snd (fresh_cmd s)). set (ev := PSingle (p_now s + secs) (p_ncmd s) rem).
-  assert (L : linv s1 [(Auto 0, ev)]) by (apply fresh_item; auto; [intros; eauto|intros; discriminate]).
-  assert (E : fst (p_add (p_now s + secs) (p_ncmd s) rem None s1) = attempt (p_now s + secs) None (Auto 0) ev rem None s1).
-  { unfold p_add, attempt. simpl pcmd.
-    destruct (s_add_auto_ok (p_now s + secs) (p_ncmd s) rem None s1 (q_auto _ _ _ _ _ L)) as (s2 & id & X). rewrite X. reflexivity. }
-  change (fst (p_add (p_now s + secs) (p_ncmd s) rem None (PS (p_sched s) (p_counter s) (p_now s) (p_gen s) (p_dict s) (p_pickle s) (p_ncmd s + 1)%N (p_log s))))
-    with (fst (p_add (p_now s + secs) (p_ncmd s) rem None s1)).
-  rewrite E. apply linv_attempt; auto.
-  - right. split; auto. intro X. apply in_map_iff in X. destruct X as [e [Ee He]].
-    pose proof (q_fs _ _ _ _ _ H e He). simpl in Ee. lia.
-  - intros i _ X. discriminate.
-  - intros p c f X. discriminate.
-Qed.
-
-Lemma weaken_nc S c D nc : LINV S c D [] nc -> LINV S c D [] (nc + 1)%N.
-Proof.
-  intros [Q1 Q2 Q3 Q4 Q5 Q6 Q7 Q8 Q9 Q10 Q11 Q12 Q13 Q14 Q15 Q16 Q17]. constructor; auto.
-  - intros e He. specialize (Q13 e He). lia.
-  - intros kv Hk. specialize (Q14 kv Hk). lia.
-  - intros kv [].
-Qed.
-
-Lemma ddel_in k d kv : In kv (ddel k d) -> In kv d.
-Proof. unfold ddel. intros H. apply filter_In in H. tauto. Qed.
-
-Lemma repeat_inv k period delay s : pinv s -> pinv (pstep (QRepeat k period delay) s).
-Proof.
-  intros H. unfold pstep, fresh_cmd. cbv beta iota zeta.
-  set (s1 := PS (p_sched s) (p_counter s) (p_now s) (p_gen s) (p_dict s) (p_pickle s) (p_ncmd s + 1)%N (p_log s)).
-  assert (W : pinv s1) by (apply weaken_nc; exact H).
-  destruct (dhas (Named k) (p_dict s1)); [exact W|].
-  set (ev := PRepeat period (p_ncmd s) (p_now s + delay)).
-  assert (L : linv s1 [(Named k, ev)]) by (apply (fresh_item s (Named k) ev); auto; [intros; discriminate|intros; eauto]).
-  assert (A : fst (p_repeat (Named k) period (p_ncmd s) (p_now s + delay) delay s1) = s1 \/
-              fst (p_repeat (Named k) period (p_ncmd s) (p_now s + delay) delay s1) =
-              attempt (p_now s + delay) (Some (Named k)) (Named k) ev false (Some period) s1).
-  { unfold p_repeat, attempt, s_add. simpl. destruct (shas (Named k) (p_sched s)); simpl; auto. }
-  destruct A as [A|A]; rewrite A; [exact W|].
-  apply linv_attempt; auto.
-  - intros t c r X. discriminate.
-  - intros i X. discriminate.
-Qed.
-
-(* sub-schedules and sub-dicts *)
 Lemma sub_inv S c D nc (p : sent -> bool) (q : name * pev -> bool) :
   LINV S c D [] nc -> LINV (filter p S) c (filter q D) [] nc.
 Proof.
@@ -328,15 +378,12 @@ Proof.
   - exact Q17.
 Qed.
 
+Lemma filter_false {A} (l : list A) : filter (fun _ => false) l = [].
+Proof. induction l; simpl; auto. Qed.
+
 Lemma filter_true {A} (l : list A) : filter (fun _ => true) l = l.
 Proof. induction l; simpl; congruence. Qed.
 
-Lemma remove_inv key s : pinv s -> pinv (pstep (QRemove key) s).
-Proof.
-  intros H. unfold pstep. destruct (dhas key (p_dict s)); auto. unfold pinv, linv. simpl. apply sub_inv. exact H.
-Qed.
-
-(* ---- events fire ---- *)
 Lemma stake_some p l e r : stake p l = Some (e, r) -> Permutation l (e :: r).
 Proof.
   revert e r. induction l as [|x l IH]; simpl; intros e r H; [discriminate|].
@@ -345,18 +392,134 @@ Proof.
   - destruct (stake p l) as [[y r']|]; [|discriminate]. inversion H; subst. rewrite (IH _ _ eq_refl). apply perm_swap.
 Qed.
 
-Lemma fire_inv e rest s : pinv s -> Permutation (p_sched s) (e :: rest) -> pinv (p_fire e (set_sched rest s)).
+(* die() of the repaired plugin: the pickle is the dict, nothing of ours stays scheduled *)
+Lemma die_m s : minv s -> minv (p_die_with true s) /\ p_loaded (p_die_with true s) = false.
 Proof.
-  intros H P. pose proof H as [Q1 Q2 Q3 Q4 Q5 Q6 Q7 Q8 Q9 Q10 Q11 Q12 Q13 Q14 Q15 Q16 Q17].
+  intros [M U]. split; [|reflexivity]. destruct M as [L G SD Dn ND LT RS].
+  assert (E : filter (fun e => negb (dhas (s_name e) (p_dict s))) (p_sched s) = []).
+  { clear - SD. induction (p_sched s) as [|e l IH]; simpl; auto.
+    assert (H : dhas (s_name e) (p_dict s) = true) by (apply dhas_In; apply SD; left; auto).
+    rewrite H. simpl. apply IH. intros x Hx. apply SD. right. exact Hx. }
+  unfold p_die_with. rewrite E. split.
+  - constructor; simpl.
+    + pose proof (sub_inv _ _ _ _ (fun _ => false) (fun _ => true) L) as X.
+      unfold linv. simpl.
+      rewrite filter_false, filter_true in X. exact X.
+    + intros e [].
+    + intros e [].
+    + intros c Hc. destruct (Dn c Hc) as (A & B & C). split; [intros []|split; auto].
+    + exact ND.
+    + exact LT.
+    + intros e [].
+  - simpl. auto.
+Qed.
+
+(* ---- a brand-new request ---- *)
+Lemma fresh_mloop s K ev :
+  MLOOP s [] -> pcmd ev = p_ncmd s ->
+  (forall t c r, ev = PSingle t c r -> exists i, K = Auto i) -> (forall p c f, ev = PRepeat p c f -> exists j, K = Named j) ->
+  MLOOP (snd (fresh_cmd s)) [(K, ev)].
+Proof.
+  intros [L G SD Dn ND LT RS] Hc T1 T2.
+  destruct L as [Q1 Q2 Q3 Q4 Q5 _ _ _ _ Q10 _ Q12 Q13 Q14 _ Q16 _].
+  constructor; unfold fresh_cmd; simpl; auto.
+  - unfold linv. simpl. constructor; auto.
+    + constructor; [intros []|constructor].
+    + intros a b [<-|[]] [<-|[]] _. reflexivity.
+    + intros k t c r [X|[]]. inversion X; subst. eauto.
+    + intros a b Ha [<-|[]]. unfold kcmd at 2. simpl. rewrite Hc. specialize (Q14 a Ha). lia.
+    + intros e kv He [<-|[]] E. unfold kcmd in E. simpl in E. rewrite Hc in E. specialize (Q13 e He). lia.
+    + intros e He. specialize (Q13 e He). lia.
+    + intros kv Hk. specialize (Q14 kv Hk). lia.
+    + intros kv [<-|[]]. unfold kcmd. simpl. rewrite Hc. lia.
+    + intros k p c f [X|[]]. inversion X; subst. eauto.
+  - intros c Hcd. destruct (Dn c Hcd) as (A & B & _). split; [exact A|split; [exact B|]].
+    intros [X|[]]. unfold kcmd in X. simpl in X. specialize (LT c Hcd). lia.
+  - intros c Hcd. specialize (LT c Hcd). lia.
+  - intros e He [X|[]]. unfold kcmd in X. simpl in X. specialize (Q13 e He). lia.
+Qed.
+
+Lemma weaken_m s : MLOOP s [] -> MLOOP (snd (fresh_cmd s)) [].
+Proof.
+  intros [L G SD Dn ND LT RS]. constructor; unfold fresh_cmd; simpl; auto.
+  - destruct L as [Q1 Q2 Q3 Q4 Q5 Q6 Q7 Q8 Q9 Q10 Q11 Q12 Q13 Q14 Q15 Q16 Q17]. unfold linv. simpl. constructor; auto.
+    + intros e He. specialize (Q13 e He). lia.
+    + intros kv Hk. specialize (Q14 kv Hk). lia.
+    + intros kv [].
+  - intros c Hc. specialize (LT c Hc). lia.
+Qed.
+
+Lemma s_add_auto_ok t cmd rem per s : (forall e i, In e (p_sched s) -> s_name e = Auto i -> (i < p_counter s)%N) ->
+  exists s1 id, s_add t None cmd rem per s = (s1, Ok id).
+Proof.
+  intros H. unfold s_add. simpl. destruct (shas (Auto (p_counter s)) (p_sched s)) eqn:E; eauto.
+  apply shas_In in E. apply in_map_iff in E. destruct E as [e [En He]]. specialize (H e _ He En). lia.
+Qed.
+
+Lemma add_m secs rem s : MLOOP s [] ->
+  MLOOP (fst (p_add (p_now s + secs) (p_ncmd s) rem None (snd (fresh_cmd s)))) [].
+Proof.
+  intros M. set (s1 := snd (fresh_cmd s)). set (ev := PSingle (p_now s + secs) (p_ncmd s) rem).
+  assert (L : MLOOP s1 [(Auto 0, ev)]) by (apply fresh_mloop; auto; [intros; eauto|intros; discriminate]).
+  assert (E : fst (p_add (p_now s + secs) (p_ncmd s) rem None s1) = attempt (p_now s + secs) None (Auto 0) ev rem None s1).
+  { unfold p_add, attempt. simpl pcmd.
+    destruct (s_add_auto_ok (p_now s + secs) (p_ncmd s) rem None s1 (q_auto _ _ _ _ _ (m_linv _ _ L))) as (s2 & id & X).
+    rewrite X. reflexivity. }
+  rewrite E. apply mloop_attempt; auto.
+  - right. split; auto. intro X. apply in_map_iff in X. destruct X as [e [Ee He]].
+    pose proof (q_fs _ _ _ _ _ (m_linv _ _ M) e He). simpl in Ee. lia.
+  - intros i _ X. discriminate.
+  - intros p c f X. discriminate.
+Qed.
+
+Lemma repeat_m k period delay s : MLOOP s [] ->
+  MLOOP (fst (p_repeat (Named k) period (p_ncmd s) (p_now s + delay) delay (snd (fresh_cmd s)))) [].
+Proof.
+  intros M. set (s1 := snd (fresh_cmd s)). set (ev := PRepeat period (p_ncmd s) (p_now s + delay)).
+  assert (W : MLOOP s1 []) by (apply weaken_m; exact M).
+  assert (L : MLOOP s1 [(Named k, ev)]) by (apply fresh_mloop; auto; [intros; discriminate|intros; eauto]).
+  assert (A : fst (p_repeat (Named k) period (p_ncmd s) (p_now s + delay) delay s1) = s1 \/
+              fst (p_repeat (Named k) period (p_ncmd s) (p_now s + delay) delay s1) =
+              attempt (p_now s + delay) (Some (Named k)) (Named k) ev false (Some period) s1).
+  { unfold p_repeat, attempt, s_add. simpl. destruct (shas (Named k) (p_sched s)); simpl; auto. }
+  destruct A as [A|A]; rewrite A; [exact W|].
+  apply mloop_attempt; auto.
+  - intros t c r X. discriminate.
+  - intros i X. discriminate.
+Qed.
+
+Lemma remove_m key s : MLOOP s [] ->
+  MLOOP (set_sched (filter (fun e => negb (name_eqb (s_name e) key)) (p_sched s)) (set_dict (ddel key (p_dict s)) s)) [].
+Proof.
+  intros [L G SD Dn ND LT RS]. constructor; simpl; auto.
+  - unfold linv. simpl. apply sub_inv. exact L.
+  - intros e He. apply filter_In in He. apply G. tauto.
+  - intros e He. apply filter_In in He. destruct He as [He Hn]. apply ddel_keys_other; auto.
+    apply negb_true_iff in Hn. apply name_eqb_neq in Hn. exact Hn.
+  - intros c Hc. destruct (Dn c Hc) as (A & B & C). split; [|split; auto].
+    + intro X. apply A. apply in_map_iff in X. destruct X as [e [E He]]. apply filter_In in He. rewrite <- E. apply in_map. tauto.
+    + intro X. apply B. apply in_map_iff in X. destruct X as [kv [E Hk]]. apply ddel_in in Hk. rewrite <- E. apply in_map. tauto.
+Qed.
+
+(* ---- an event fires ---- *)
+Lemma fire_m e rest s : MLOOP s [] -> Permutation (p_sched s) (e :: rest) -> MLOOP (p_fire e (set_sched rest s)) [].
+Proof.
+  intros M P. pose proof M as [L G SD Dn ND LT RS].
+  pose proof L as [Q1 Q2 Q3 Q4 Q5 Q6 Q7 Q8 Q9 Q10 Q11 Q12 Q13 Q14 Q15 Q16 Q17].
   assert (Hrest : forall x, In x rest -> In x (p_sched s)) by (intros x Hx; eapply Permutation_in; [apply Permutation_sym; exact P|right; auto]).
   assert (He : In e (p_sched s)) by (eapply Permutation_in; [apply Permutation_sym; exact P|left; auto]).
   assert (N1 : NoDup (snames (e :: rest))) by (unfold snames; rewrite <- P; exact Q1).
   assert (N2 : NoDup (scmds (e :: rest))) by (unfold scmds; rewrite <- P; exact Q2).
+  assert (Crest : ~ In (s_cmd e) (scmds rest)) by (inversion N2; auto).
+  assert (Nrest : ~ In (s_name e) (snames rest)) by (inversion N1; auto).
+  assert (Cdone : ~ In (s_cmd e) (p_done s)).
+  { intro X. destruct (Dn _ X) as (A & _). apply A. apply in_map. exact He. }
+  (* the schedule shrinks to rest, the dict to a sub-dict D' *)
   assert (R0 : forall D', (forall kv, In kv D' -> In kv (p_dict s)) -> NoDup (keys D') -> LINV rest (p_counter s) D' [] (p_ncmd s)).
-  { intros D' Hsub ND. constructor.
+  { intros D' Hsub NDk. constructor.
     - inversion N1; auto.
     - inversion N2; auto.
-    - exact ND.
+    - exact NDk.
     - intros a b Ha Hb. apply Q4; auto.
     - intros k t c r Hin. eapply Q5; eauto.
     - exact Q6.
@@ -371,86 +534,228 @@ Proof.
     - exact Q15.
     - intros k p c f Hin. eapply Q16; eauto.
     - exact Q17. }
-  unfold p_fire. simpl. destruct (s_period e) as [period|].
-  - (* a repeat re-adds itself under its name *)
-    unfold pinv, linv. simpl. constructor.
-    + exact N1.
-    + exact N2.
-    + exact Q3.
-    + exact Q4.
-    + exact Q5.
-    + exact Q6.
-    + exact Q7.
-    + exact Q8.
-    + exact Q9.
-    + intros x kv [<-|Hx] Hk E; simpl in *; [apply (Q10 e kv He Hk E)|apply Q10; auto].
-    + intros x kv _ [].
-    + intros x i [<-|Hx]; simpl; [apply Q12; auto|apply Q12; auto].
-    + intros x [<-|Hx]; simpl; [apply Q13; auto|apply Q13; auto].
-    + exact Q14.
-    + exact Q15.
-    + exact Q16.
-    + exact Q17.
-  - destruct (N.eqb (s_gen e) (p_gen s)).
-    + destruct (dhas (s_name e) (p_dict s)).
-      * unfold pinv, linv. simpl. apply R0; [intros kv Hk; eapply ddel_in; eauto|apply NoDup_map_filter; auto].
-      * destruct (s_rem e); unfold pinv, linv; simpl; apply R0; auto.
-    + unfold pinv, linv. simpl. apply R0; auto.
+  assert (Gd : N.eqb (s_gen e) (p_gen s) = true) by (apply N.eqb_eq; apply G; exact He).
+  unfold p_fire. simpl. destruct (s_period e) as [period|] eqn:Per.
+  - (* a repeat re-adds itself under its name; nothing is marked done *)
+    constructor; simpl.
+    + unfold linv. simpl. constructor.
+      * exact N1.
+      * exact N2.
+      * exact Q3.
+      * exact Q4.
+      * exact Q5.
+      * exact Q6.
+      * exact Q7.
+      * exact Q8.
+      * exact Q9.
+      * intros x kv [<-|Hx] Hk E; simpl in *; [apply (Q10 e kv He Hk E)|apply Q10; auto].
+      * intros x kv _ [].
+      * intros x i [<-|Hx]; simpl; [apply Q12; auto|apply Q12; auto].
+      * intros x [<-|Hx]; simpl; [apply Q13; auto|apply Q13; auto].
+      * exact Q14.
+      * exact Q15.
+      * exact Q16.
+      * exact Q17.
+    + intros x [<-|Hx]; simpl; auto.
+    + intros x [<-|Hx]; simpl; auto.
+    + intros c Hc. destruct (Dn c Hc) as (A & B & C). split; [|split; auto].
+      intros [X|X]; simpl in X; [subst c; apply Cdone; exact Hc|]. apply A.
+      apply in_map_iff in X. destruct X as [y [E Hy]]. rewrite <- E. apply in_map. auto.
+    + exact ND.
+    + exact LT.
+    + intros x _ [].
+  - rewrite Gd. destruct (dhas (s_name e) (p_dict s)) eqn:DH.
+    + (* the closure deletes its entry from the live dict: the request is gone from schedule and dict *)
+      constructor; simpl.
+      * unfold linv. simpl. apply R0; [intros kv Hk; apply ddel_in in Hk; tauto|apply NoDup_map_filter; auto].
+      * intros x Hx. auto.
+      * intros x Hx. apply ddel_keys_other; auto. intro X. apply Nrest. rewrite <- X. apply in_map. exact Hx.
+      * intros c [<-|Hc].
+        -- split; [exact Crest|split; [|intros []]].
+           intro X. apply in_map_iff in X. destruct X as [kv [E Hk]]. apply ddel_in in Hk. destruct Hk as [Hk Hn].
+           apply Hn. apply (Q10 e kv He Hk E).
+        -- destruct (Dn c Hc) as (A & B & C). split; [|split; auto].
+           ++ intro X. apply A. apply in_map_iff in X. destruct X as [y [E Hy]]. rewrite <- E. apply in_map. auto.
+           ++ intro X. apply B. apply in_map_iff in X. destruct X as [kv [E Hk]]. apply ddel_in in Hk. rewrite <- E. apply in_map. tauto.
+      * constructor; auto.
+      * intros c [<-|Hc]; auto.
+      * intros x _ [].
+    + assert (Cdict : ~ In (s_cmd e) (dcmds (p_dict s))).
+      { intro X. apply in_map_iff in X. destruct X as [kv [E Hk]]. pose proof (Q10 e kv He Hk E) as Kn.
+        assert (dhas (s_name e) (p_dict s) = true) by (apply dhas_In; rewrite <- Kn; apply in_map; exact Hk). congruence. }
+      destruct (s_rem e).
+      * constructor; simpl.
+        -- unfold linv. simpl. apply R0; auto.
+        -- intros x Hx. auto.
+        -- intros x Hx. auto.
+        -- intros c [<-|Hc].
+           ++ split; [exact Crest|split; [exact Cdict|intros []]].
+           ++ destruct (Dn c Hc) as (A & B & C). split; [|split; auto].
+              intro X. apply A. apply in_map_iff in X. destruct X as [y [E Hy]]. rewrite <- E. apply in_map. auto.
+        -- constructor; auto.
+        -- intros c [<-|Hc]; auto.
+        -- intros x _ [].
+      * constructor; simpl.
+        -- unfold linv. simpl. apply R0; auto.
+        -- intros x Hx. auto.
+        -- intros x Hx. auto.
+        -- intros c Hc. destruct (Dn c Hc) as (A & B & C). split; [|split; auto].
+           intro X. apply A. apply in_map_iff in X. destruct X as [y [E Hy]]. rewrite <- E. apply in_map. auto.
+        -- exact ND.
+        -- exact LT.
+        -- intros x _ [].
 Qed.
 
-Lemma loop_inv fuel : forall s, pinv s -> pinv (p_loop fuel s).
+Lemma loop_m fuel : forall s, MLOOP s [] -> MLOOP (p_loop fuel s) [].
 Proof.
   induction fuel as [|k IH]; intros s H; simpl; auto.
   destruct (stake (is_smin (p_sched s)) (p_sched s)) as [[e rest]|] eqn:T; auto.
-  destruct (s_t e <? p_now s)%Z; auto. apply IH. apply fire_inv; auto. apply (stake_some _ _ _ _ T).
+  destruct (s_t e <? p_now s)%Z; auto. apply IH. apply fire_m; auto. apply (stake_some _ _ _ _ T).
 Qed.
 
-Lemma pstep_inv o s : pinv s -> pinv (pstep o s).
+Lemma p_fire_frame e s : p_loaded (p_fire e s) = p_loaded s /\ p_pickle (p_fire e s) = p_pickle s /\ p_dict s = p_dict s.
 Proof.
-  intros H. destruct o.
-  - apply (add_inv secs false s H).
-  - apply (add_inv secs true s H).
-  - apply repeat_inv; auto.
-  - apply remove_inv; auto.
-  - apply load_inv; auto.
-  - apply restart_inv; auto.
-  - exact H.
-  - apply loop_inv; auto.
+  unfold p_fire. destruct (s_period e); simpl; auto.
+  destruct (N.eqb (s_gen e) (p_gen s)); simpl; auto.
+  destruct (dhas (s_name e) (p_dict s)); simpl; auto. destruct (s_rem e); simpl; auto.
 Qed.
 
-Lemma pinit_inv : pinv pinit.
+(* while the plugin is unloaded nothing of it is scheduled, so run() does nothing to it *)
+Lemma loop_unloaded fuel s : p_sched s = [] -> p_loop fuel s = s.
+Proof. intros E. destruct fuel; simpl; auto. rewrite E. reflexivity. Qed.
+
+Lemma loop_loaded fuel : forall s, p_loaded (p_loop fuel s) = p_loaded s.
 Proof.
-  unfold pinv, linv. simpl. constructor; try constructor;
-    unfold uniq, typed, typedr, link; intros; repeat match goal with H : In _ [] |- _ => destruct H end.
+  induction fuel as [|k IH]; intros s; simpl; auto.
+  destruct (stake (is_smin (p_sched s)) (p_sched s)) as [[e rest]|]; auto.
+  destruct (s_t e <? p_now s)%Z; auto. rewrite IH. apply (p_fire_frame e (set_sched rest s)).
 Qed.
 
-Lemma prun_ops_inv ops : forall s, pinv s -> pinv (prun_ops ops s).
-Proof. induction ops as [|o ops IH]; intros s H; simpl; auto. apply IH. apply pstep_inv; auto. Qed.
+Lemma eta_unloaded s : p_loaded s = false ->
+  PS (p_sched s) (p_counter s) (p_now s) (p_gen s) (p_dict s) (p_pickle s) (p_ncmd s) (p_log s) false (p_done s) (p_ign s) = s.
+Proof. destruct s; simpl. intros ->. reflexivity. Qed.
 
-(* no user request ever has two schedule entries: across add / remind / repeat / remove, events firing, reload, restart *)
+Lemma p_add_loaded t c rem nm s : p_loaded (fst (p_add t c rem nm s)) = p_loaded s.
+Proof.
+  unfold p_add. destruct (s_add_frame t nm c rem None s) as (_ & _ & C & _).
+  destruct (s_add t nm c rem None s) as [s1 [id|e]]; simpl in *; auto.
+Qed.
+Lemma p_repeat_loaded n period c first nri s : p_loaded (fst (p_repeat n period c first nri s)) = p_loaded s.
+Proof.
+  unfold p_repeat. destruct (s_add_frame (p_now s + nri) (Some n) c false (Some period) s) as (_ & _ & C & _).
+  destruct (s_add (p_now s + nri) (Some n) c false (Some period) s) as [s1 [id|e]]; simpl in *; auto.
+Qed.
+
+Lemma pstep_m o s : minv s -> minv (pstep_with true o s).
+Proof.
+  intros MU. pose proof MU as [M U]. destruct o; unfold pstep_with.
+  - (* add *) destruct (p_loaded s) eqn:Ld.
+    + change (minv (fst (p_add (p_now s + secs) (p_ncmd s) false None (snd (fresh_cmd s))))).
+      split; [apply (add_m secs false s M)|]. rewrite p_add_loaded. simpl. congruence.
+    + split; [apply weaken_m; auto|]. simpl. auto.
+  - (* remind *) destruct (p_loaded s) eqn:Ld.
+    + change (minv (fst (p_add (p_now s + secs) (p_ncmd s) true None (snd (fresh_cmd s))))).
+      split; [apply (add_m secs true s M)|]. rewrite p_add_loaded. simpl. congruence.
+    + split; [apply weaken_m; auto|]. simpl. auto.
+  - (* repeat *)
+    change (minv (if negb (p_loaded s) || dhas (Named k) (p_dict (snd (fresh_cmd s))) then snd (fresh_cmd s)
+                  else fst (p_repeat (Named k) period (p_ncmd s) (p_now s + delay) delay (snd (fresh_cmd s))))).
+    destruct (p_loaded s) eqn:Ld; simpl negb; simpl orb.
+    + change (p_dict (snd (fresh_cmd s))) with (p_dict s). destruct (dhas (Named k) (p_dict s)).
+      * split; [apply weaken_m; auto|]. simpl. congruence.
+      * split; [apply (repeat_m k period delay s M)|]. rewrite p_repeat_loaded. simpl. congruence.
+    + split; [apply weaken_m; auto|]. simpl. auto.
+  - (* remove *) destruct (p_loaded s) eqn:Ld; simpl andb; [|exact MU].
+    destruct (dhas key (p_dict s)); [|exact MU].
+    split; [exact (remove_m key s M)|]. simpl. congruence.
+  - (* reload *) destruct (p_loaded s) eqn:Ld; [|exact MU].
+    destruct (die_m s MU) as [Md Hd].
+    pose proof (load_m (p_die_with true s) (p_counter (p_die_with true s)) Md Hd) as X.
+    rewrite (eta_unloaded _ Hd) in X. exact X.
+  - (* restart *)
+    set (s1 := if p_loaded s then p_die_with true s else s).
+    assert (H1 : minv s1 /\ p_loaded s1 = false).
+    { unfold s1. destruct (p_loaded s) eqn:Ld; [apply die_m; exact MU|split; [exact MU|auto]]. }
+    destruct H1 as [M1 L1]. destruct (proj2 M1 L1) as [Es _].
+    pose proof (load_m s1 0%N M1 L1) as X. rewrite Es in X. exact X.
+  - (* advance *) split; [|exact U]. destruct M as [L G SD Dn ND LT RS]. constructor; simpl; auto.
+  - (* run *) split; [apply loop_m; auto|]. rewrite loop_loaded. intros Hl. destruct (U Hl) as [Es Ep].
+    rewrite (loop_unloaded _ s Es). auto.
+  - (* unload *) destruct (p_loaded s) eqn:Ld; [|exact MU]. apply die_m. exact MU.
+  - (* load *) destruct (p_loaded s) eqn:Ld; [exact MU|].
+    pose proof (load_m s (p_counter s) MU Ld) as X. rewrite (eta_unloaded _ Ld) in X. exact X.
+  - (* ignore *) split; [|exact U]. destruct M as [L G SD Dn ND LT RS]. constructor; simpl; auto.
+Qed.
+
+Lemma pinit_m : minv pinit.
+Proof.
+  split; [|simpl; discriminate]. constructor; simpl.
+  - unfold linv. simpl. constructor; try constructor;
+      unfold uniq, typed, typedr, link; intros; repeat match goal with H : In _ [] |- _ => destruct H end.
+  - intros e [].
+  - intros e [].
+  - intros c [].
+  - constructor.
+  - intros c [].
+  - intros e [].
+Qed.
+
+Lemma prun_ops_m ops : forall s, minv s -> minv (prun_ops_with true ops s).
+Proof. induction ops as [|o ops IH]; intros s H; simpl; auto. apply IH. apply pstep_m; auto. Qed.
+
+Lemma table_die : gen.T18.DIE_UNSCHEDULES = true.
+Proof. reflexivity. Qed.
+
+Lemma reach_m ops : minv (prun_ops ops pinit).
+Proof. unfold prun_ops. rewrite table_die. apply prun_ops_m. apply pinit_m. Qed.
+
+(* ---- the theorems ---- *)
+(* no one-shot request is ever executed twice: across add / remind / repeat / remove, events firing, reload,
+   unload ... load, restart *)
+Lemma plugin_once ops : NoDup (p_done (prun_ops ops pinit)).
+Proof. apply (m_nd _ _ (proj1 (reach_m ops))). Qed.
+
+(* an executed one-shot request is neither scheduled nor listed any more (so nothing can run it again) *)
+Lemma plugin_done_gone ops c :
+  let s := prun_ops ops pinit in
+  In c (p_done s) -> ~ In c (map s_cmd (p_sched s)) /\ ~ In c (map (fun kv => pcmd (snd kv)) (p_dict s)).
+Proof. intros s H. destruct (m_done _ _ (proj1 (reach_m ops)) c H) as (A & B & _). split; auto. Qed.
+
+(* no request has two schedule entries; every scheduled function belongs to the live instance and is listed under its id *)
 Lemma plugin_scheduled_once ops :
   let s := prun_ops ops pinit in NoDup (map s_cmd (p_sched s)) /\ NoDup (map s_name (p_sched s)).
 Proof.
-  intros s. pose proof (prun_ops_inv ops pinit pinit_inv) as H. split; [apply (q_cmds _ _ _ _ _ H)|apply (q_names _ _ _ _ _ H)].
+  intros s. pose proof (m_linv _ _ (proj1 (reach_m ops))) as H. split; [apply (q_cmds _ _ _ _ _ H)|apply (q_names _ _ _ _ _ H)].
 Qed.
 
-(* a schedule entry and the dict entry of the same request agree on the id: `scheduler remove <id>` hits it *)
+Lemma plugin_live ops e :
+  let s := prun_ops ops pinit in In e (p_sched s) -> s_gen e = p_gen s /\ In (s_name e) (map fst (p_dict s)).
+Proof. intros s H. destruct (proj1 (reach_m ops)) as [_ G SD _ _ _ _]. split; [apply G; exact H|apply SD; exact H]. Qed.
+
 Lemma plugin_listed_id ops e kv :
   let s := prun_ops ops pinit in
   In e (p_sched s) -> In kv (p_dict s) -> pcmd (snd kv) = s_cmd e -> fst kv = s_name e.
-Proof. intros s. apply (q_lD _ _ _ _ _ (prun_ops_inv ops pinit pinit_inv)). Qed.
+Proof. intros s. apply (q_lD _ _ _ _ _ (m_linv _ _ (proj1 (reach_m ops)))). Qed.
 
-(* ---- non-vacuity / the two behaviours at stake ---- *)
-(* two one-shots pending, reload, remove #1, time passes: request 0 runs once, request 1 never *)
+(* ---- non-vacuity, and the plugin before the repair ---- *)
 Example reload_keeps_ids :
   let s := prun_ops [QAdd 5; QAdd 5; QReload; QRemove (Auto 1); QAdvance 6; QRun; QAdvance 6; QRun] pinit in
-  map snd (p_log s) = [0%N] /\ p_sched s = [] /\ p_counter s = 2%N.
+  map snd (p_log s) = [0%N] /\ p_sched s = [] /\ p_counter s = 2%N /\ p_done s = [0%N].
 Proof. vm_compute. repeat split. Qed.
 
-(* finding C18.F24, in the model: add, reload, the event fires, reload again: it is scheduled and run a second time,
-   because the closure of the dead instance did not delete it from the new instance's dict *)
-Example stale_after_reload :
-  let s1 := prun_ops [QAdd 2; QReload; QAdvance 3; QRun] pinit in
-  let s2 := prun_ops [QReload; QAdvance 1; QRun] s1 in
-  map snd (p_log s1) = [0%N] /\ map fst (p_dict s1) = [Auto 0] /\ map snd (p_log s2) = [0%N; 0%N].
-Proof. vm_compute. repeat split. Qed.
+(* the witnesses of finding C18.F24 on the repaired plugin: once *)
+Example reload_fire_reload_once :
+  p_done (prun_ops [QAdd 2; QReload; QAdvance 3; QRun; QReload; QAdvance 1; QRun] pinit) = [0%N] /\
+  p_done (prun_ops [QAdd 2; QRemind 3; QUnload; QAdvance 5; QRun; QLoad; QAdvance 1; QRun; QRestart; QAdvance 9; QRun] pinit) = [1%N; 0%N].
+Proof. vm_compute. split; reflexivity. Qed.
+
+(* with the die() of before the repair (no unscheduling) both histories run request 0 twice *)
+Lemma plugin_once_refuted_old_die :
+  exists ops, ~ NoDup (p_done (prun_ops_with false ops pinit)).
+Proof.
+  exists [QAdd 2; QReload; QAdvance 3; QRun; QReload; QAdvance 1; QRun]. vm_compute. intro H.
+  inversion H as [|? ? N1 _]; subst. apply N1. left. reflexivity.
+Qed.
+Example unload_load_twice_old_die :
+  p_done (prun_ops_with false [QAdd 2; QUnload; QAdvance 5; QRun; QLoad; QAdvance 1; QRun] pinit) = [0%N; 0%N].
+Proof. vm_compute. reflexivity. Qed.
